@@ -20,7 +20,8 @@ RULE = ("scale instances = 17 classes + Diatonic with all 21 semitone-position p
         "(enumerated) + Hypothesis note lists (subsets of size 1-7 of a scale's set, the same plus one foreign note, "
         "random lists of the 35 names) against a brute-force subset specification. Non-trivial: instance whose tonic "
         "has an accidental or with more than one octave (every instance includes direction 'd'); recognition input with "
-        ">= 3 notes whose non-empty expected answer differs from the answer for its first two notes.")
+        ">= 3 notes whose non-empty expected answer differs from the answer for its first two notes."
+        ' Also: parallel-key chromatic pairs and every pair of instances that print the same name or share tonic and octave count (equality clause).')
 ASSUMPTIONS = [
     "chromatic scale: descending form compared with the reversed ascending form by pitch class only (its documented "
     "spelling descends in flats)",
